@@ -7,5 +7,5 @@
 import sys, json
 sys.path.insert(0, '/verif')
 from engine.pysym import env
-SPEC = json.loads('{"prop": "C19", "key": "py:computed:int-division-floors-negative-quotient", "obligation": "computed.int-division==truncated-quotient", "job": {"harness": "harness.py.generated:h_c19_int", "params": {"rec": "RecI32", "field": "quot"}, "limits": {"budget_s": 60, "max_paths": 4000}, "hooks": null}, "inputs": {"a": 500328, "b": -2120}}')
+SPEC = json.loads('{"prop": "C19", "key": "py:computed:int-division-floors-negative-quotient", "obligation": "computed.int-division==truncated-quotient", "job": {"harness": "harness.py.generated:h_c19_int", "params": {"rec": "RecI32", "field": "quot"}, "limits": {"budget_s": 480, "max_paths": 4000}, "hooks": null}, "inputs": {"a": 500328, "b": -2120}}')
 sys.exit(env.replay_main(SPEC))
